@@ -387,7 +387,7 @@ func c19Ops() []*c19Op {
 	q("Consensus", true, c19HasCell, func(*c19Inst, c19Level) []string { return c19BoolArgs(2) }, func(e *c19Env, arg string) {
 		a := c19Ints(arg)
 		e.out(e.al.Consensus(c19B(a[0]), c19B(a[1])), nil)
-	})
+	}).Own = true // "consensus" is in the statement's list too: see below
 	// transposition and bootstrap are in the statement's list of copy-producing operations, and the quantifier has
 	// every such operation "followed by arbitrary in-place mutations of the returned object": step 2 applies
 	q("Transpose", true, nil, nil, func(e *c19Env, _ string) { e.out(e.al.Transpose()) }).Own = true
